@@ -111,8 +111,31 @@ def check_value(p, v, cfg_name, col):
     k2, b2 = tl.call(typelib.encode, v, t=T, **({"encoder": enc} if "encoder" in cfg else {}))
     k3, b3 = tl.call(lambda: enc(tl.marshal(v, t=T)))
     amb = ambiguity(spec, v, mat) if U.has_kind(spec, "union", "optional") else None
+    def hist_case():
+        """(see c01.history_diag) the same encode / decode / encode with every cache cleared"""
+        def trace():
+            out = []
+            k_, cd_ = tl.call(typelib.codec, T, **cfg)
+            if k_ == "exc":
+                return ["codec-exc"]
+            k_, b_ = tl.call(cd_.encode, v)
+            out.append(bytes(b_) if k_ == "ok" else ("exc", tl.exc_name(b_)))
+            if k_ == "ok":
+                k_, d_ = tl.call(cd_.decode, b_)
+                out.append(snapshot(d_) if k_ == "ok" else ("exc", tl.exc_name(d_)))
+                if k_ == "ok":
+                    k_, bb_ = tl.call(cd_.encode, d_)
+                    out.append(bytes(bb_) if k_ == "ok" else ("exc", tl.exc_name(bb_)))
+            return out
+        c = case()
+        warm = trace()
+        tl.clear_all()
+        if trace() != warm:
+            c["diag"] = "history-dependent"
+        return c
+
     if k1 == "exc" and amb:
-        col.violation("union-fixpoint", case(), f"encode raised {tl.exc_name(b1)} for a value captured by an earlier union member", bucket="encode-raises")
+        col.violation("union-fixpoint", hist_case(), f"encode raised {tl.exc_name(b1)} for a value captured by an earlier union member", bucket="encode-raises")
         return
     if k1 == "exc":
         col.violation("encode-succeeds", case(), f"codec({mat.root_expr}).encode({vsrc[:140]}) raised {tl.exc_name(b1)}: {b1}",
@@ -147,7 +170,7 @@ def check_value(p, v, cfg_name, col):
     if d1[0] == "exc":
         c = case()
         if amb and isinstance(d1[1], ValueError):
-            col.violation("union-fixpoint", c, f"decode raised {tl.exc_name(d1[1])} for ambiguous union", bucket="decode-raises")
+            col.violation("union-fixpoint", hist_case(), f"decode raised {tl.exc_name(d1[1])} for ambiguous union", bucket="decode-raises")
         else:
             col.violation("decode-succeeds", c, f"codec({mat.root_expr}).decode({b1!r:.140}) raised {tl.exc_name(d1[1])}: {d1[1]}",
                           bucket=exc_bucket(d1[1]))
@@ -163,7 +186,7 @@ def check_value(p, v, cfg_name, col):
     else:
         kk, bb = tl.call(cdc.encode, u)
         if kk == "exc" or bytes(bb) != bytes(b1):
-            col.violation("union-fixpoint", case(), f"T={mat.root_expr}: encode(decode(b)) = {bb!r:.100} != {b1!r:.100}", bucket="fixpoint")
+            col.violation("union-fixpoint", hist_case(), f"T={mat.root_expr}: encode(decode(b)) = {bb!r:.100} != {b1!r:.100}", bucket="fixpoint")
 
 
 BYTES_WRAPS = ["plain", "newtype", "alias", "newtype>newtype", "alias>newtype", "newtype>alias", "alias>alias", "final"]
